@@ -266,6 +266,23 @@ chk("C19", "model_checking",
     "DESIGN.md section 4, C19")
 
 
+chk("C20", "model_checking",
+    "spec/FilterMode.tla specifies the stream loop as a deterministic step function over the phases main / header / "
+    "packet / filter / end with the program's counter, the current packet as modified so far, the probe log and the "
+    "output; TLC model-checks MainOnceFirst, Ordered (packets in order, filters in source order, NP = index), "
+    "VarsMatchRecord (PL, WL, TSS, TSU), EndOnceLast, OutputShape (header = input's, -s writes no pcap), "
+    "WritesBounded, agreement of machine and functional run, and termination over a program library x 0-3 packets x "
+    "-s (14 k states). Conformance: random pcap streams (0-40 packets, both magics, varied snaplen / linktype / "
+    "version / zone) x generated programs of 0-4 filters in the same vocabulary (patterns over NP, PL, WL, TSS, TSU, a "
+    "global counter, ($1).type, ($2).ttl; actions bumping the counter, assigning ($2).ttl, defining a local; with / "
+    "without end; with / without -s) run through the real binary; stderr probes and stdout bytes are validated by "
+    "spec/FilterTrace.tla against the machine's run.",
+    "Programs are drawn from the vocabulary the specification interprets; frames are Ethernet / IPv4; timestamps below "
+    "2^31; a runtime error inside a filter is outside the claim.",
+    "TLA+ state machine model-checked by TLC; recorded end-to-end runs of the binary trace-validated by TLC",
+    "DESIGN.md section 4, C20")
+
+
 def main():
     props = [json.loads(l)["id"] for l in open(os.path.join(VERIF, "properties.jsonl"))]
     na = [{"property_id": p, "reason": NOT_APPLICABLE.get(p, "check not built yet in this round (planned, see DESIGN.md section 8)")}
